@@ -59,6 +59,7 @@ def run(R):
     run_print_stream(R, 'C01', 'CTL', 1500 if R.thorough else 150)
     run_mc(R, 'CTL', cases(R))
     long_structures(R, 'C01', 'CTL')
+    run_mc(R, 'CTL', long_prefix_cases(R.rng, 2000 if R.thorough else 200), label='_long_common_prefix', alias_every=0)
     # or/and nodes with 3-5 (or 1) operands, each a distinct quantified formula
     run_mc(R, 'CTL', wide_cases(R.rng, 3000 if R.thorough else 300, 'CTL'), label='_wide_connectives')
 
